@@ -51,6 +51,16 @@ PROPS = {
     "C14": dict(gens=["C14"], quick=3000, thorough=100000),
     "C15": dict(gens=["C15"], quick=8000, thorough=200000),
     "C16": dict(gens=["C16"], quick=8000, thorough=200000),
+    "C06": dict(gens=["C06"], quick=15000, thorough=300000, known=["K2", "K4"]),
+    "C07": dict(gens=["C07"], quick=4000, thorough=200000),
+    "C09": dict(gens=["C09"], quick=4000, thorough=150000),
+    "C11": dict(gens=["C11"], quick=7000, thorough=250000),
+    "C12": dict(gens=["C12"], quick=4000, thorough=150000),
+    "C13": dict(gens=["C13"], quick=14000, thorough=300000),
+    "C17": dict(gens=["C17"], quick=10000, thorough=200000, known=["K1"]),
+    "C18": dict(gens=["C18"], quick=700, thorough=20000),
+    "C19": dict(gens=["C19"], quick=1200, thorough=20000),
+    "C20": dict(gens=["C20"], quick=9000, thorough=120000),
 }
 
 
@@ -220,8 +230,38 @@ def run_impl(binary, lines, tag):
     return res
 
 
+HARNESS_ONLY = ("frm.", "fl.hasheq")
+
+
+def harness_only_verdict(line, im):
+    """operations that exist on the implementation side only (C17 forms, C09 hash/eq):
+    the harness itself compares and answers B 1"""
+    ok = im == "B 1"
+    known = "-"
+    t = line.split()
+    if t[0].startswith("frm.") and "_divr" in t[0] and not t[0].startswith("frm.dd_"):
+        try:
+            if int(t[-1]) > 18:
+                known = "K1"
+        except ValueError:
+            pass
+    return ("B 1", ok, ok, known)
+
+
 def run_driver(lines, impl, pf, tag):
     """returns list of (model_out, corr, acc, known)"""
+    full = [None] * len(lines)
+    idxs = [i for i, l in enumerate(lines) if not l.startswith(HARNESS_ONLY)]
+    for i, l in enumerate(lines):
+        if l.startswith(HARNESS_ONLY):
+            full[i] = harness_only_verdict(l, impl[i])
+    sub = run_driver_real([lines[i] for i in idxs], [impl[i] for i in idxs], pf, tag) if idxs else []
+    for i, r in zip(idxs, sub):
+        full[i] = r
+    return full
+
+
+def run_driver_real(lines, impl, pf, tag):
     n = len(lines)
     shards = min(NPROC, max(1, n // 200))
     procs = []
@@ -248,15 +288,93 @@ def run_driver(lines, impl, pf, tag):
     return res
 
 
+def canon_err(o):
+    return "E invalid" if o.startswith("E ") else o
+
+
+def eval_generic(pid, lines, hbin, pf="dev", tag=None):
+    impl = run_impl(hbin, lines, tag or pid)
+    rows = run_driver(lines, impl, pf, tag or pid)
+    return impl, rows
+
+
+def eval_C18(pid, lines, hbin):
+    """Dec!(lit) at compile time (macro probe) against from_str(lit) of the implementation
+    (oracle, the property itself) and against the model of the macro (correspondence)"""
+    import macro_probe
+    lits = [bytes.fromhex(l.split()[2]).decode("utf-8") if l.split()[2] != "-" else "" for l in lines]
+    macro = macro_probe.probe(lits)
+    keep = [i for i, m in enumerate(macro) if m is not None]
+    lines = [lines[i] for i in keep]
+    macro = [macro[i] for i in keep]
+    fs_lines = [l.replace("str.macro", "str.parse", 1) for l in lines]
+    fs = run_impl(hbin, fs_lines, pid + "_fs")
+    rows = run_driver(lines, macro, "dev", pid)
+    out_rows = []
+    impl = []
+    for l, m, f, (mo, corr, acc, kn) in zip(lines, macro, fs, rows):
+        agree = (m == canon_err(f))
+        impl.append("%s | from_str: %s" % (m, f))
+        out_rows.append((mo, corr, agree, "-"))
+    return lines, impl, out_rows
+
+
+C20_PROFILES_QUICK = [("dev", "dev", ""), ("release", "release", "")]
+C20_PROFILES_THOROUGH = [
+    ("dev", "dev", ""), ("release", "release", ""),
+    ("o0-ovf-nodbg", "ovf-nodbg", ""), ("o0-noovf-dbg", "noovf-dbg", ""), ("o0-noovf-nodbg", "release", ""),
+    ("o3-ovf-dbg", "dev", ""), ("o3-ovf-nodbg", "ovf-nodbg", ""), ("o3-noovf-dbg", "noovf-dbg", ""),
+    ("dev", "dev", "packed"), ("release", "release", "packed"),
+    ("o0-ovf-nodbg", "ovf-nodbg", "packed"), ("o0-noovf-dbg", "noovf-dbg", "packed"), ("o0-noovf-nodbg", "release", "packed"),
+    ("o3-ovf-dbg", "dev", "packed"), ("o3-ovf-nodbg", "ovf-nodbg", "packed"), ("o3-noovf-dbg", "noovf-dbg", "packed"),
+]
+
+
+def eval_C20(pid, lines, tier, log):
+    """the same cases under every build configuration: outcomes must be identical
+    across configurations (the property), each equal to the model under the matching
+    profile (correspondence) and accepted by the specification (oracle)"""
+    profs = C20_PROFILES_THOROUGH if tier == "thorough" else C20_PROFILES_QUICK
+    per = []
+    for (cargo_prof, model_pf, feat) in profs:
+        with Lock():
+            ok, out, hbin = build_harness(cargo_prof, feat)
+        if not ok:
+            raise RuntimeError("harness build failed for %s %s: %s" % (cargo_prof, feat, out[-800:]))
+        tag = "%s_%s_%s" % (pid, cargo_prof, feat or "nopacked")
+        if feat:
+            # cargo puts every feature set into the same target dir: run right after building
+            pass
+        impl = run_impl(hbin, lines, tag)
+        rows = run_driver(lines, impl, model_pf, tag)
+        per.append((cargo_prof + ("+" + feat if feat else ""), impl, rows))
+        log("[%s] configuration %-22s: corr_fail=%d oracle_fail=%d" % (pid, per[-1][0],
+            sum(1 for r in rows if not r[1]), sum(1 for r in rows if not r[2])))
+    base_name, base_impl, base_rows = per[0]
+    impl = []
+    rows = []
+    for i in range(len(lines)):
+        same = all(p[1][i] == base_impl[i] for p in per)
+        corr = all(p[2][i][1] for p in per)
+        acc = all(p[2][i][2] for p in per) and same
+        if same:
+            impl.append(base_impl[i])
+        else:
+            impl.append(" | ".join("%s: %s" % (p[0], p[1][i]) for p in per if p[1][i] != base_impl[i] or p is per[0]))
+        rows.append((base_rows[i][0], corr, acc, base_rows[i][3]))
+    return impl, rows, [p[0] for p in per]
+
+
 def nontrivial(line):
     """rule: some integer argument has magnitude > 9 (not a toy input)"""
-    for t in line.split()[2:]:
-        t = t.lstrip("-")
-        try:
-            if int(t, 16) > 9:
-                return True
-        except ValueError:
-            pass
+    for tok in line.split()[2:]:
+        for t in re.split(r"[:=,]", tok):
+            t = t.lstrip("-SGRDMVUF")
+            try:
+                if t and int(t, 16) > 9:
+                    return True
+            except ValueError:
+                pass
     return False
 
 
@@ -344,9 +462,14 @@ def main():
             lines = [info["line"]] if "line" in info else []
         else:
             lines = load_corpus(pid) + gen_cases(pid, seed, tier)
+        configs = ["dev"]
         if lines:
-            impl = run_impl(hbin, lines, pid)
-            rows = run_driver(lines, impl, "dev", pid)
+            if pid == "C18":
+                lines, impl, rows = eval_C18(pid, lines, hbin)
+            elif pid == "C20":
+                impl, rows, configs = eval_C20(pid, lines, tier, log)
+            else:
+                impl, rows = eval_generic(pid, lines, hbin)
         knowns = {k["id"]: k for k in load_known() if k.get("kind") == "known" and pid in k.get("properties", [k.get("property")])}
         seen_viol = set()
         for ln, im, (mo, corr, acc, ktag) in zip(lines, impl, rows):
@@ -408,7 +531,7 @@ def main():
                  "distinct = distinct protocol lines; non-trivial = some integer argument of magnitude > 9",
             samples=samples[:8],
             correspondence_disagreements=n_corr_fail, oracle_rejections=n_acc_fail,
-            known_findings_hit=sorted(known_hits), op_histogram=ops, outcome_kind_histogram=kinds, mode_histogram=modes,
+            known_findings_hit=sorted(known_hits), build_configurations=configs if (okd and okh) else [], op_histogram=ops, outcome_kind_histogram=kinds, mode_histogram=modes,
             exhaustive=False,
         ),
         assumptions=["model faithfulness beyond the explored inputs", "rustc semantics of primitive operations", "see DESIGN.md §6"],
